@@ -93,6 +93,13 @@ def judge(case, res, dens):
             sig["how"] = geometry_class(detail[0], detail[1])
         elif cls in ("comment-c", "comment-dollar", "comment-block-head"):
             sig["how"] = "lost" if len(detail[1]) < len(detail[0]) else ("added" if len(detail[1]) > len(detail[0]) else "changed")
+            # which kind of card owns the comment (narrow signatures: a loss elsewhere is a different violation)
+            if where.startswith("data["):
+                name = where.split(":", 1)[1].split()[0] if ":" in where else ""
+                base = name.split(":")[0].lstrip("*").rstrip("0123456789")
+                sig["card"] = "data:" + (base if base in spec.CELL_DATA else "other")
+            else:
+                sig["card"] = where.split("[")[0]
         elif cls in ("cell-param-missing",):
             sig["how"] = ("dropped " if detail[1] else "added ") + str(detail[0][0])
         elif cls == "data-entries":
